@@ -90,7 +90,8 @@ def run_extractor(rundir):
     os.makedirs(gen, exist_ok=True)
     tmp = os.path.join(rundir, "gen")
     os.makedirs(tmp, exist_ok=True)
-    rc, out, _ = sh(["go", "run", ex, "-repo", REPO, "-out", tmp], cwd=os.path.join(VERIF, "extract"), env=GOENV, timeout=300)
+    srcs = sorted(f for f in os.listdir(os.path.dirname(ex)) if f.endswith(".go") and not f.endswith("_test.go"))
+    rc, out, _ = sh(["go", "run"] + srcs + ["-repo", REPO, "-out", tmp], cwd=os.path.join(VERIF, "extract"), env=GOENV, timeout=300)
     if rc != 0:
         return False, out
     # only touch files whose content changed, so lake does not rebuild needlessly
@@ -599,6 +600,18 @@ def run_check(prop, tier, seed, cfg, rundir, t0, replay_file):
                     report_violation("access", c, None, f"{prop} unsynchronised-access pair={v}", "oracle")
             fixed_pairs = sorted(kpairs - set(facts.get("violations", [])))
             if fixed_pairs: log(f"[{prop}] known pairs no longer present: {fixed_pairs[:5]}")
+            # lock-nesting graph: every cycle found by the extractor is a counterexample to lock_nesting_acyclic;
+            # the replay lists the nestings (function, file:line, call chain) that close the cycle
+            for cyc in facts.get("lock_cycles", []):
+                name = ">".join(cyc["locks"] + cyc["locks"][:1])
+                c = {"id": "lock-nesting", "ops": ["extract lock nesting of /repo/torrent and /repo/internal (theorem Rain.Props.C20.lock_nesting_acyclic fails)"] + ["edge " + e for e in cyc["edges"]],
+                     "obs": ["cycle " + name] + ["potential deadlock: one goroutine per edge, each holding the first lock and waiting for the second"] * len(cyc["edges"])}
+                report_violation("lock-nesting", c, None, f"{prop} lock-nesting-cycle:{name} theorem=Rain.Props.C20.lock_nesting_acyclic", "static")
+            for le in facts.get("lock_loop_carried", []):
+                if not le.get("gate"):
+                    c = {"id": "lock-nesting", "ops": [f"extract lock nesting (theorem Rain.Props.C20.loop_carried_locks_gated fails)"],
+                         "obs": [f"{le['fn']} at {le['pos']} takes {le['lock']} of one element after the other without an exclusive lock around the sequence"]}
+                    report_violation("lock-nesting", c, None, f"{prop} loop-carried-lock-ungated:{le['fn']}:{le['lock']} theorem=Rain.Props.C20.loop_carried_locks_gated", "static")
         except Exception as e:
             corr_broken.append("access table: " + str(e))
 
